@@ -6,6 +6,7 @@ ROOT='/verif'; SEEDS='/tmp/seeds'; WT='/tmp/wt/seedscratch'
 props=[json.loads(l)['id'] for l in open(f'{ROOT}/properties.jsonl')]
 claimed=[c['property_id'] for c in json.load(open(f'{ROOT}/MANIFEST.json'))['checks']]
 def sh(cmd, **kw): return subprocess.run(cmd, shell=True, capture_output=True, text=True, **kw)
+sh('cd /verif/checker && GOFLAGS=-mod=mod GOPROXY=off go build -o /verif/.bin/sialint-seed ./cmd/sialint')
 def ensure_wt():
     if not os.path.isdir(WT): sh(f'git -C /repo worktree add -q --detach {WT} HEAD')
     head=sh('git -C /repo rev-parse HEAD').stdout.strip()
@@ -15,10 +16,13 @@ def detect(patch):
     r=sh(f'git -C {WT} apply {patch}')
     if r.returncode!=0: return None
     hits={}
-    for p in claimed:
-        out=sh(f'{ROOT}/.bin/sialint -property {p} -repo {WT} -out /tmp/ev-scratch').stdout
-        rules=sorted(set(re.findall(r'(?:FINDING|UNDECIDED) rule=(\S+)', out)))
-        if rules: hits[p]=rules
+    from concurrent.futures import ThreadPoolExecutor
+    def one(p):
+        return p, sh(f'{ROOT}/.bin/sialint-seed -property {p} -repo {WT} -out /tmp/ev-seed-{p}').stdout
+    with ThreadPoolExecutor(max_workers=10) as ex:
+        for p,out in ex.map(one, claimed):
+            rules=sorted(set(re.findall(r'(?:FINDING|UNDECIDED) rule=(\S+)', out)))
+            if rules: hits[p]=rules
     sh(f'git -C {WT} checkout -q -- .')
     return hits
 if '--detect-only' not in sys.argv:
